@@ -362,6 +362,19 @@ func c10MapAndHandler(id string, depth, subscribers, hcap, values int, seed int6
 				want[dpt+1] = append(want[dpt+1], x)
 			}
 		}
+		// a derived publisher is an ordinary publisher: values published directly on level m reach level m and
+		// everything derived from it (and nothing above it)
+		for m := 1; m < len(levels); m++ {
+			for v := 0; v < 2; v++ {
+				x := 7000 + 10*m + v
+				levels[m].Publish(x)
+				want[m] = append(want[m], x)
+				for dpt := m; dpt < depth; dpt++ {
+					x = x*(dpt+2) + 1
+					want[dpt+1] = append(want[dpt+1], x)
+				}
+			}
+		}
 		for li := range levels {
 			for k := 0; k < 2; k++ {
 				if !eqSeq(got[li][k], want[li]) {
@@ -390,6 +403,31 @@ func c10MapAndHandler(id string, depth, subscribers, hcap, values int, seed int6
 			origin.Publish(5)
 			if !eqSeq(a, []int{101}) || !eqSeq(b, []int{103, 104, 105}) || !eqSeq(oneShot, []int{204}) || !eqSeq(late, []int{205}) {
 				c.Violationf("map:resubscribe", rep, "a derived publisher stopped publishing after its subscriptions changed: first=%v (want [101]) resubscribed=%v (want [103 104 105]) one-shot=%v (want [204]) late=%v (want [205])", a, b, oneShot, late)
+			}
+		}
+		// pause / resume / move: a copy of a subscription value registered again (on the same or another publisher)
+		// after the original was unsubscribed is a registration like any other
+		{
+			p1 := fpgo.PublisherNewGenerics[int]()
+			p2 := fpgo.PublisherNewGenerics[int]()
+			var g1, g2, g3 []int
+			s1 := p1.Subscribe(fpgo.Subscription[int]{OnNext: func(v int) { g1 = append(g1, v) }})
+			early := *s1 // a copy taken while registered
+			p1.Publish(1)
+			p1.Unsubscribe(s1)
+			p1.Publish(2)
+			s2 := p1.Subscribe(*s1) // resume with a copy taken after the Unsubscribe
+			p2.Subscribe(*s1)       // and move to another publisher
+			p1.Publish(3)
+			p2.Publish(4)
+			p1.Unsubscribe(s2)
+			p1.Publish(5)
+			p1.Subscribe(early)
+			p1.Publish(6)
+			_ = g2
+			_ = g3
+			if !eqSeq(g1, []int{1, 3, 4, 6}) {
+				c.Violationf("resubscribe-copy", rep, "Subscribe / Unsubscribe / Subscribe(copy) on the same and on another publisher: the callback received %v, want [1 3 4 6]", g1)
 			}
 		}
 		// SubscribeOn(h)
@@ -505,7 +543,7 @@ func init() {
 		Meta: func(c *core.Ctx) core.Meta {
 			return core.Meta{
 				Level:       "exploration",
-				Rule:        "(a) every sequential re-entrant history with k <= 3 (thorough 4) subscribers whose callbacks are scripted from {nothing, unsubscribe self, unsubscribe j, subscribe a new one, publish on a derived publisher} x 1..3 publishes: per (publish, subscription) the count must be 1 if registered before and not touched during, 0 if unsubscribed before, <= 1 always, subscription order among the untouched; (b) 1..4 concurrent publishers x 1..4 subscribe/unsubscribe churners with call/return stamps (registered throughout => exactly 1, Unsubscribe returned before Publish called => 0, never twice, stable subscriptions in order), PRNG yields or a publisher parked at the snapshot / before a delivery while a Subscribe+Unsubscribe pair completes; (c) Map chains of depth 1..3; (d) SubscribeOn(h) with 1..4 subscribers and handler capacity 0..2: exactly once each, on h's goroutine; (b)-(d) repeated under -race (deciding for publisher.go frames). distinct_nontrivial = enumerated sequential histories + distinct concurrent scenarios / hook-trace signatures",
+				Rule:        "(a) every sequential re-entrant history with k <= 3 (thorough 4) subscribers whose callbacks are scripted from {nothing, unsubscribe self, unsubscribe j, subscribe a new one, publish on a derived publisher} x 1..3 publishes: per (publish, subscription) the count must be 1 if registered before and not touched during, 0 if unsubscribed before, <= 1 always, subscription order among the untouched; (b) 1..4 concurrent publishers x 1..4 subscribe/unsubscribe churners with call/return stamps (registered throughout => exactly 1, Unsubscribe returned before Publish called => 0, never twice, stable subscriptions in order), PRNG yields or a publisher parked at the snapshot / before a delivery while a Subscribe+Unsubscribe pair completes; (c) Map chains of depth 1..3 with two subscribers per level, values published on the root and directly on every derived level, subscription churn on derived publishers, and Subscribe / Unsubscribe / Subscribe(copy of the subscription value) on the same and another publisher; (d) SubscribeOn(h) with 1..4 subscribers and handler capacity 0..2: exactly once each, on h's goroutine; (b)-(d) repeated under -race (deciding for publisher.go frames). distinct_nontrivial = enumerated sequential histories + distinct concurrent scenarios / hook-trace signatures",
 				Assumptions: []string{"a subscription added or removed during a Publish may or may not see that value", "SubscribeOn uses a handler other than the publishing goroutine's own"},
 				Exhaustive:  true,
 			}
